@@ -3,7 +3,7 @@ import BindgenModel.Model.CDecl
 /-! Line protocol for the static-wrapper model (first token `cdecl`).
 
 Type encoding (prefix, space separated): `b<c>:void|nullptr|int:<IntKind>|float:<FloatKind>|complex:<FloatKind>|`
-`named:<s>|struct:<s>|union:<s>|enum:<s>`, `p<c> T`, `a<n> T`, `f<c> T ( {n:<name>|u} T … )`, `r<c> T`, `x`
+`named:<s>|struct:<s>|union:<s>|enum:<s>`, `p<c> T`, `a<n> T`, `f<c><v> T ( {n:<name>|u} T … )`, `r<c> T`, `x`
 (`<c>` = 0/1 constness).
 
 * `cdecl arms` → `a=<0|1>` (form of the Array arm in the generated table)
@@ -52,11 +52,11 @@ def decodeType : Nat → List String → Option (CType × List String)
     | "a" => match (t.drop 1).toString.toNat?, decodeType f rest with
       | some n, some (ty, r) => some (.array ty n, r)
       | _, _ => none
-    | "f" => match c, decodeType f rest with
-      | some c, some (ret, "(" :: r) => match decodeParams f r with
-        | some (ps, r') => some (.func c ret ps, r')
+    | "f" => match c, flag ((t.drop 2).take 1).toString, decodeType f rest with
+      | some c, some v, some (ret, "(" :: r) => match decodeParams f r with
+        | some (ps, r') => some (.func c v ret ps, r')
         | none => none
-      | _, _ => none
+      | _, _, _ => none
     | _ => none
   | _, [] => none
 def decodeParams : Nat → List String → Option (Params × List String)
@@ -86,7 +86,7 @@ def encodeType : CType → String
   | .base c b => "b" ++ b01 c ++ ":" ++ encodeBase b
   | .ptr c t => "p" ++ b01 c ++ " " ++ encodeType t
   | .array t n => "a" ++ toString n ++ " " ++ encodeType t
-  | .func c r ps => "f" ++ b01 c ++ " " ++ encodeType r ++ " (" ++ encodeParams ps
+  | .func c v r ps => "f" ++ b01 c ++ b01 v ++ " " ++ encodeType r ++ " (" ++ encodeParams ps
   | .tref c t => "r" ++ b01 c ++ " " ++ encodeType t
   | .other => "x"
 def encodeParams : Params → String
@@ -101,7 +101,7 @@ def paramList : Params → List (Option Name × CType)
 def defectStr : Option Defect → String
   | none => "-"
   | some .arrayUnderPtr => "arrayUnderPtr" | some .arrayElem => "arrayElem" | some .fnRet => "fnRet"
-  | some .fnNoDeclarator => "fnNoDeclarator" | some .fnConst => "fnConst" | some .constRefPtr => "constRefPtr"
+  | some .fnNoDeclarator => "fnNoDeclarator" | some .fnConst => "fnConst" | some .fnVariadic => "fnVariadic" | some .constRefPtr => "constRefPtr"
   | some .unsupported => "unsupported"
 
 /-- `<defect>:<roundtrip ok>:<lexer agrees>` for one declaration -/
